@@ -35,7 +35,9 @@ def case_strategy(draw, max_faces=60):
     q0 = [first, draw(st.integers(0, 10 ** 6)), draw(st.integers(0, 10 ** 6)), draw(st.integers(0, 10 ** 6))]
     return {"V": s["V"], "F": s["F"], "tags": s["tags"], "sort": draw(st.booleans()),
             "queries": [q0] + [list(q) for q in rest], "sweep_seed": draw(st.integers(0, 1000)),
-            "declare_edges": draw(st.integers(0, 3)) == 0}
+            "declare_edges": draw(st.integers(0, 3)) == 0,
+            # how the mesh object under test is produced: directly, or written to a file and loaded back
+            "via": draw(st.sampled_from([None, None, None, "obj", "mesh", "geogram_ascii"]))}
 
 
 def pick_pair(ref, medges, a, b):
@@ -282,7 +284,25 @@ def build(case):
         # declare (some of) the face sides explicitly, in reversed orientation: they must be the same edges
         ref = SurfRef(len(case["V"]), case["F"])
         E = [(b, a) for (a, b) in sorted(ref.uedges)][::2]
-    return surface_from(case["V"], case["F"], E)
+    m = surface_from(case["V"], case["F"], E)
+    via = case.get("via")
+    if via:
+        import os, tempfile, shutil
+        d = tempfile.mkdtemp(prefix="c01_")
+        try:
+            p = os.path.join(d, "m." + via)
+            try:
+                M.mesh.save(m, p)
+                m2 = M.mesh.load(p)
+            except Exception:
+                return m          # what saves / loads is C04's business
+        finally:
+            shutil.rmtree(d, ignore_errors=True)
+        # only a faithful reload (same faces in the same order, same number of vertices) is used here
+        if (type(m2).__name__ == "SurfaceMesh" and [tuple(ints(f)) for f in m2.faces] == [tuple(f) for f in case["F"]]
+                and len(m2.vertices) == len(case["V"])):
+            return m2
+    return m
 
 
 def edges_of(m, ref, ctx):
@@ -300,7 +320,7 @@ def fn(case, ctx):
         raise AssertionError("invalid generated case: " + err)
     for t in case.get("tags", []):
         ctx.label(t)
-    ctx.label("sort=" + str(case["sort"]))
+    ctx.label("sort=" + str(case["sort"]), "via=" + str(case.get("via")))
     ctx.label("first=" + case["queries"][0][0])
     has_inner = any(not ref.edge_on_border(*e) for e in ref.uedges)
     kinds = set(q[0] for q in case["queries"])
